@@ -33,6 +33,11 @@ def conclude(agg):
             if c.get(k, 0) == 0]
 
 
+def coord(rng):
+    """routing coordinate; the boundary value 0 is over-represented (a written 0 is a value, not a wildcard)"""
+    return 0 if rng.random() < 0.12 else rng.randrange(0, 5000, 5)
+
+
 def gen_route(rng, special, vianames, stats):
     """-> (text, [(layer, width, points as written, resolved points)], {via: [(x, y, orient)]})"""
     segs_txt = []
@@ -55,7 +60,7 @@ def gen_route(rng, special, vianames, stats):
                 toks.append('TAPER')
             elif r < 0.2:
                 toks += ['TAPERRULE', 'rule1']
-        x, y = rng.randrange(0, 5000, 5), rng.randrange(0, 5000, 5)
+        x, y = coord(rng), coord(rng)
         toks += ['(', str(x), str(y), ')']
         written = [(x, y)]
         resolved = [(x, y)]
@@ -84,17 +89,17 @@ def gen_route(rng, special, vianames, stats):
                 continue
             mode = rng.choice(['xy', 'x*', '*y', 'xy'])
             if mode == 'x*':
-                nx_ = rng.randrange(0, 5000, 5)
+                nx_ = coord(rng)
                 wr = (nx_, None)
                 x = nx_
                 stats['wildcards'] += 1
             elif mode == '*y':
-                ny_ = rng.randrange(0, 5000, 5)
+                ny_ = coord(rng)
                 wr = (None, ny_)
                 y = ny_
                 stats['wildcards'] += 1
             else:
-                x, y = rng.randrange(0, 5000, 5), rng.randrange(0, 5000, 5)
+                x, y = coord(rng), coord(rng)
                 wr = (x, y)
             ext = None
             if not special and rng.random() < 0.15:
@@ -106,7 +111,7 @@ def gen_route(rng, special, vianames, stats):
             k += 1
         if len(written) == 1 and toks[-1] == ')':
             # a wire needs something after its first point
-            x2 = rng.randrange(0, 5000, 5)
+            x2 = coord(rng)
             toks += ['(', str(x2), '*', ')']
             written.append((x2, None))
             resolved.append((x2, y))
